@@ -337,3 +337,30 @@ def _interp_gen(rng):
 
 native(f"{GF}:GFunction.g_function_interpolation", _interp_check, _interp_gen, None,
        bound="real GFunction objects with 1..5 stored heights in arbitrary storage order, random curves and radii: B/H of every stored height returns the stored curve and radius (fresh object and shared object with cached interpolation table)")
+
+
+# ---- BaseGHE.compute_g_functions: the GHE takes over a *new* family object (whose interpolation table has not been built) --------------------------------------
+from contracts.search import Field, GFK  # noqa: E402
+
+GFK3 = z3.Function("GFK_FAMILY", z3.RealSort(), z3.RealSort(), z3.RealSort(), z3.RealSort(), z3.RealSort(), z3.RealSort(), z3.RealSort(), z3.IntSort(), z3.IntSort())
+_FAM = lambda: ObjOf(f"{GF}:GFunction", bore_locations=Field, log_time=OpaqueOf("list"), g_key=Int, g_table_built=Bool, g_lts=OpaqueOf("dict"), r_b_values=OpaqueOf("dict"), interpolation_table=OpaqueOf("dict"), B=Real, d=Real)  # noqa: E731
+contract(f"{GF}:calc_g_func_for_multiple_lengths",
+         dict(b=Real, h_values=FixedList([Real, Real, Real]), r_b=Real, depth=Real, m_flow_borehole=Real, bhe_type=Int, log_time=OpaqueOf("list"), coordinates=Field,
+              fluid=ObjOf("x"), pipe=ObjOf("x"), grout=ObjOf("x"), soil=ObjOf("x")),
+         name=f"{GF}:calc_g_func_for_multiple_lengths#family",
+         ensures=[("a-new-family-for-these-arguments", lambda E: And(E.result.bore_locations.id == E.coordinates.id, E.result.bore_locations.len == E.coordinates.len, Not(E.result.g_table_built),
+                                                                     E.result.g_key == GFK3(E.b, E.h_values[0], E.h_values[1], E.h_values[2], E.r_b, E.depth, E.m_flow_borehole, E.coordinates.id)))],
+         returns=_FAM(), notes="A-DET caller view (body checked at run time against the FLS anchor): a new GFunction object - its interpolation table is empty - named by the arguments"
+         ).applies = lambda env: __import__("contracts.search", fromlist=["_n_heights"])._n_heights(env) == 3
+
+contract(f"{G}:BaseGHE.compute_g_functions",
+         dict(self=ObjOf(f"{G}:GHE", sim_params=ObjOf("sim", min_height=Real, max_height=Real), gFunction=_FAM(), B_spacing=Real, bhe_type=Int,
+                         bhe=ObjOf("bhe", b=ObjOf("borehole", r_b=Real, D=Real, H=Real), m_flow_borehole=Real, fluid=ObjOf("x"), pipe=ObjOf("x"), grout=ObjOf("x"), soil=ObjOf("x")))),
+         name=f"{G}:BaseGHE.compute_g_functions#body",
+         ensures=[("holds-a-new-family-for-min-mid-max-height", lambda E: And(
+             E.self.gFunction.g_key == GFK3(E.self.B_spacing, E.self.sim_params.min_height, (E.self.sim_params.min_height + E.self.sim_params.max_height) / 2, E.self.sim_params.max_height,
+                                            E.self.bhe.b.r_b, E.self.bhe.b.D, E.self.bhe.m_flow_borehole, E.old.self.gFunction.bore_locations.id),
+             E.self.gFunction.bore_locations.id == E.old.self.gFunction.bore_locations.id)),
+                  ("no-interpolation-table-carried-over-from-the-previous-family", lambda E: Not(E.self.gFunction.g_table_built)),
+                  ("the-previous-family-object-is-left-alone", lambda E: And(E.self.gFunction.raw() is not E.old.self.gFunction.raw()))],
+         assigns=writes("self.gFunction"), returns=NoneT()).applies = lambda env: False
